@@ -533,7 +533,11 @@ impl<'a> Exec<'a> {
                         let ob = self.build(&m[2])?;
                         md = md.with_assertion(p, ob);
                     }
-                    Outcome::Env(e.add_signature_opt(&sk.private, sk.options(), Some(md)))
+                    if var % 2 == 0 {
+                        Outcome::Env(e.add_signature_opt(&sk.private, sk.options(), Some(md)))
+                    } else {
+                        Outcome::Env(e.add_signatures_opt(&[(&sk.private as &dyn bc_components::Signer, sk.options(), Some(md))]))
+                    }
                 }
             }
             "sign" => {
